@@ -130,6 +130,10 @@ def rule_esc(c: Ctx) -> RuleResult:
         rt_ = c.tf.ret_type(f)
         if rt_ in ("bool", "int", "NoneType", "float"):
             continue                      # a helper that does not produce output text
+        ann = f.node.returns
+        if ann is not None and U(ann).strip("'\"") != "str" or any(
+                U(d).split(".")[-1] in ("property", "setter", "getter", "cached_property") for d in f.node.decorator_list):
+            continue                      # annotated as returning something else than text / an attribute accessor
         r.functions += 1
         j = EscJudge(c, f)
         rets = [n for n in own_nodes(f.node) if isinstance(n, ast.Return) and n.value is not None]
